@@ -79,6 +79,9 @@ func checkC17(r *mon.Run) {
 	r.Assume("oracle: internal/refguid (no fmt verbs shared with the library) and unicode/utf16 from the standard library")
 	suiteGUIDs := map[string]bool{}
 	gs := c17GUIDs(r)
+	// Texts that are not GUIDs, converted before anything else: whatever they return, the value
+	// returned must format as its own fields say, and must not change how any GUID formats later.
+	c17HostileTexts(r)
 	var mu = make(chan struct{}, 1)
 	_ = mu
 	chunk := 4096
@@ -231,6 +234,63 @@ func checkC17(r *mon.Run) {
 	r.Floor("strings", 1000)
 }
 
+func c17HostileTexts(r *mon.Run) {
+	rng := mon.Rand(r.Seed, "C17", "hostile-texts")
+	shape := func(fill func(i int) byte) string {
+		b := make([]byte, 36)
+		for i := range b {
+			if i == 8 || i == 13 || i == 18 || i == 23 {
+				b[i] = '-'
+			} else {
+				b[i] = fill(i)
+			}
+		}
+		return string(b)
+	}
+	texts := []string{"", "-", "zz", "0", "00000000-0000-0000-0000-00000000000", "00000000-0000-0000-0000-0000000000000",
+		"{8be4df61-93ca-11d2-aa0d-00e098032b8c}", "8be4df61-93ca-11d2-aa0d-00e098032b8c ", " 8be4df61-93ca-11d2-aa0d-00e098032b8c",
+		"8be4df6193ca11d2aa0d00e098032b8c", "8be4df61_93ca_11d2_aa0d_00e098032b8c",
+		shape(func(int) byte { return 'z' }), shape(func(int) byte { return 'g' }), shape(func(int) byte { return ' ' }),
+		shape(func(int) byte { return '-' }), shape(func(int) byte { return '.' })}
+	hexd := "0123456789abcdef"
+	for k := 0; k < 400; k++ {
+		cut := rng.Intn(36)
+		bad := []byte("zgx_ .-:")[rng.Intn(8)]
+		texts = append(texts, shape(func(i int) byte {
+			if i >= cut {
+				return bad
+			}
+			return hexd[rng.Intn(16)]
+		}))
+		pos := rng.Intn(36)
+		texts = append(texts, shape(func(i int) byte {
+			if i == pos {
+				return bad
+			}
+			return hexd[rng.Intn(16)]
+		}))
+	}
+	for _, t := range texts {
+		var g *util.EFIGUID
+		if p := mon.Try(func() { g = util.StringToGUID(t) }); p != "" {
+			// crash behaviour on hostile input is C14's subject
+			r.Count("hostile_texts_panicked", 1)
+			continue
+		}
+		r.Count("hostile_texts", 1)
+		r.Eval(1)
+		if g == nil {
+			continue
+		}
+		var got string
+		want := fromLib(*g).Text()
+		if p := mon.Try(func() { got = g.Format() }); p != "" || got != want {
+			r.Violation("C17|guid|format-after-hostile-text", fmt.Sprintf("StringToGUID(%q) returned %+v, whose Format() is %q (want %q) %s", t, *g, got, want, p),
+				map[string]any{"text": t})
+		}
+	}
+}
+
 func c17Strings(r *mon.Run) {
 	rng := mon.Rand(r.Seed, "C17", "strings")
 	randRune := func(class int) rune {
@@ -278,6 +338,15 @@ func c17Strings(r *mon.Run) {
 		}
 		ss = append(ss, sb.String())
 	}
+	// long values: around 2^15 and 2^16 code units and bytes
+	for _, l := range []int{16383, 16384, 32766, 32767, 32768, 32769, 40000, 65535, 65536, 65537, 70001} {
+		var sb strings.Builder
+		cl := rng.Intn(3)
+		for k := 0; k < l; k++ {
+			sb.WriteRune(randRune(cl))
+		}
+		ss = append(ss, sb.String())
+	}
 	suite := map[string]bool{"test": true, "": false}
 	mon.Parallel(len(ss), 16, func(i int) {
 		s := ss[i]
@@ -322,6 +391,17 @@ func c17Strings(r *mon.Run) {
 			}
 		} else if err == nil {
 			viol("unterminated-accepted", fmt.Sprintf("ParseUtf16Var accepted %d bytes without terminator and returned %q", len(unterminated), trunc(dec, 40)))
+		}
+		// the terminator cut by one byte (odd length), and one zero byte only after the last unit
+		if len(want) >= 2 {
+			for ci, cutb := range [][]byte{want[:len(want)-1], append(append([]byte(nil), unterminated...), 0)} {
+				if p := mon.Try(func() { dec, err = util.ParseUtf16Var(bytes.NewBuffer(append([]byte(nil), cutb...))) }); p != "" {
+					viol("half-terminator-panic", p)
+				} else if err == nil {
+					viol("half-terminator-accepted", fmt.Sprintf("ParseUtf16Var accepted %d bytes (odd length, terminator incomplete; variant %d) and returned %q", len(cutb), ci, trunc(dec, 40)))
+				}
+			}
+			r.Count("half_terminator_inputs", 2)
 		}
 		if p := mon.Try(func() { var e2 efivar.Efistring; err = e2.Unmarshal(bytes.NewBuffer(append([]byte(nil), unterminated...))) }); p != "" {
 			if len(unterminated) == 0 {
